@@ -126,6 +126,8 @@ func Gen(r *rand.Rand, name string, o GenOpts) *Scenario {
 		}
 		if nic >= 3 && r.Intn(4) == 0 {
 			ic = IcSpec{Nil: true}
+		} else {
+			ic.Shape = []string{"", "", "func", "struct"}[r.Intn(4)]
 		}
 		sc.Ics = append(sc.Ics, ic)
 	}
@@ -182,6 +184,30 @@ func Corpus() []*Scenario {
 	out = append(out, &Scenario{Name: "corpus/interceptor-nil-and-panic", Brokers: 1, Partitions: 1, Topics: []string{"t0"}, RetryMax: 1, V2: true,
 		Msgs: []MsgSpec{two(1), two(2), two(3)},
 		Ics:  []IcSpec{{AddHeader: true}, {Nil: true}, {Nil: true}, {AddHeader: true, PanicOn: []int64{2}}, {AddHeader: true}}})
+	// panicking interceptors whose dynamic type is unhashable (func adapter; struct by value with a slice): the recover
+	// handler must contain the panic whatever it does with the interceptor value (seeded C18-10: a sync.Map keyed by it)
+	out = append(out, &Scenario{Name: "corpus/interceptor-panic-func-adapter", Brokers: 1, Partitions: 1, Topics: []string{"t0"}, RetryMax: 1, V2: true,
+		Msgs: []MsgSpec{two(1), two(2), two(3)}, Script: []Fault{{Kind: Retriable, Err: 6, Only: -1}},
+		Ics: []IcSpec{{AddHeader: true}, {Shape: "func", PanicOn: []int64{2}}, {AddHeader: true, Shape: "struct"}}})
+	out = append(out, &Scenario{Name: "corpus/interceptor-panic-value-struct", Brokers: 1, Partitions: 1, Topics: []string{"t0"}, RetryMax: 1, V2: true,
+		Msgs: []MsgSpec{two(1), two(2), two(3)},
+		Ics:  []IcSpec{{Shape: "struct", PanicOn: []int64{1, 3}}, {AddHeader: true, Shape: "func"}, {Nil: true}, {AddHeader: true}}})
+	// one produce request carrying two (three) partitions, every partition with its own verdict: all ordered pairs
+	// of {ok, retriable, fatal, no block, duplicate} and some triples (seeded C01-10: the second pass of handleSuccess
+	// retried a partition that the first pass had already failed fatally)
+	mixKinds := []PartFault{{Kind: Ok}, {Kind: Retriable, Err: 6}, {Kind: Fatal, Err: 10}, {Kind: NoBlock}, {Kind: Duplicate}}
+	for a, fa := range mixKinds {
+		for b, fb := range mixKinds {
+			if a == 0 && b == 0 {
+				continue
+			}
+			out = append(out, MixScenario(fmt.Sprintf("corpus/mixed-response-%s-%s", fa.Kind, fb.Kind), []PartFault{fa, fb}, 1+(a+b)%2, (a*5+b)%3 == 0))
+		}
+	}
+	out = append(out, MixScenario("corpus/mixed-response-3a", []PartFault{{Kind: Retriable, Err: 6}, {Kind: Fatal, Err: 10}, {Kind: Ok}}, 2, false))
+	out = append(out, MixScenario("corpus/mixed-response-3b", []PartFault{{Kind: Fatal, Err: 2}, {Kind: Retriable, Err: 7}, {Kind: NoBlock}}, 1, false))
+	out = append(out, MixScenario("corpus/mixed-response-3c", []PartFault{{Kind: Duplicate}, {Kind: Retriable, Err: 19}, {Kind: Fatal, Err: 10}}, 2, true))
+	out = append(out, MixScenario("corpus/mixed-response-3d", []PartFault{{Kind: NoBlock}, {Kind: Fatal, Err: 10}, {Kind: RetriableApp, Err: 19}}, 1, false))
 	// retry exhaustion, plain
 	out = append(out, &Scenario{Name: "corpus/out-of-retries", Brokers: 1, Partitions: 2, Topics: []string{"t0"}, RetryMax: 1, V2: true,
 		Msgs:   []MsgSpec{two(1), {ID: 2, Topic: "t0", Choice: 1}, two(3), {ID: 4, Topic: "t0", Choice: 1}},
@@ -190,6 +216,12 @@ func Corpus() []*Scenario {
 	out = append(out, &Scenario{Name: "corpus/retry0-abandon", Brokers: 2, Partitions: 2, Topics: []string{"t0"}, RetryMax: 0, V2: true,
 		Msgs:   []MsgSpec{two(1), {ID: 2, Topic: "t0", Choice: 1}, two(3), {ID: 4, Topic: "t0", Choice: 1, Wave: 1}, {ID: 5, Topic: "t0", Choice: 0, Wave: 1}},
 		Script: []Fault{{Kind: Fatal, Err: 10, Only: -1}, {Kind: DropBefore, Only: -1}}})
+	// Retry.Max = 0 with count-based batching: a message below the flush threshold sits in the buffer of a broker worker that
+	// a per-partition error abandons; when the partition worker lets go of it, shutdown() must still send that message
+	// (seeded C01-6: `for bp.buffer.readyToFlush()` dropped it)
+	out = append(out, &Scenario{Name: "corpus/retry0-abandoned-leftover", Brokers: 1, Partitions: 1, Topics: []string{"t0"}, RetryMax: 0, FlushMsgs: 2, V2: true,
+		Msgs:   []MsgSpec{two(1), two(2), {ID: 3, Topic: "t0", Choice: 0, Wave: 1}, {ID: 4, Topic: "t0", Choice: 0, Wave: 2}},
+		Script: []Fault{{Kind: Fatal, Err: 10, Only: -1}}, Holds: []HoldSpec{{Kind: "bp.response", Nth: 1}}})
 	// fresh input inside the retry window (steered)
 	out = append(out, &Scenario{Name: "corpus/fresh-input-in-retry-window", Brokers: 1, Partitions: 1, Topics: []string{"t0"}, RetryMax: 2, V2: true,
 		Msgs:   []MsgSpec{two(1), two(2), {ID: 3, Topic: "t0", Choice: 0, Wave: 1}, {ID: 4, Topic: "t0", Choice: 0, Wave: 1}},
@@ -303,6 +335,53 @@ func TwoLevelFlushFail(name string, brokers, partitions, retryMax, later int, er
 		sc.Msgs = append(sc.Msgs, MsgSpec{ID: id, Topic: "t0", Choice: 0, Wave: 2})
 		sc.WaveWaits = append(sc.WaveWaits, int(id)-1)
 		sc.MetaUpAtWave = 2
+	}
+	return sc
+}
+
+// MixScenario: len(mix) partitions led by one broker, one message each, Flush.Messages = len(mix) so that they travel in
+// ONE produce request whose response gives partition i the verdict mix[i]; a second request (the retries) is mixed too.
+func MixScenario(name string, mix []PartFault, retryMax int, idem bool) *Scenario {
+	sc := &Scenario{Name: name, Brokers: 1, Partitions: len(mix), Topics: []string{"t0"}, RetryMax: retryMax, FlushMsgs: len(mix), V2: true, Idempotent: idem}
+	for i := range mix {
+		sc.Msgs = append(sc.Msgs, MsgSpec{ID: int64(i + 1), Topic: "t0", Choice: int32(i)})
+	}
+	rev := make([]PartFault, len(mix))
+	for i := range mix {
+		rev[len(mix)-1-i] = mix[i]
+	}
+	sc.Script = []Fault{{Only: -1, Mix: mix}, {Only: -1, Mix: rev}}
+	return sc
+}
+
+// MixedVerdicts draws a scenario of that shape: 2-3 partitions on one broker, 1-2 messages per partition flushed together,
+// two or three mixed responses.
+func MixedVerdicts(r *rand.Rand, name string, ics bool) *Scenario {
+	np := 2 + r.Intn(2)
+	per := 1 + r.Intn(2)
+	sc := &Scenario{Name: name, Brokers: 1, Partitions: np, Topics: []string{"t0"}, RetryMax: 1 + r.Intn(2), FlushMsgs: np * per, V2: r.Intn(4) != 0,
+		Idempotent: r.Intn(3) == 0}
+	if sc.Idempotent {
+		sc.V2 = true
+	}
+	id := int64(0)
+	for k := 0; k < per; k++ {
+		for p := 0; p < np; p++ {
+			id++
+			sc.Msgs = append(sc.Msgs, MsgSpec{ID: id, Topic: "t0", Choice: int32(p)})
+		}
+	}
+	kinds := []PartFault{{Kind: Ok}, {Kind: Retriable, Err: 6}, {Kind: Retriable, Err: 7}, {Kind: RetriableApp, Err: 19}, {Kind: Fatal, Err: 10}, {Kind: Fatal, Err: 2},
+		{Kind: NoBlock}, {Kind: Duplicate}, {Kind: LeaderMoved}}
+	for q := 0; q < 2+r.Intn(2); q++ {
+		var mix []PartFault
+		for p := 0; p < np; p++ {
+			mix = append(mix, kinds[r.Intn(len(kinds))])
+		}
+		sc.Script = append(sc.Script, Fault{Only: -1, Mix: mix})
+	}
+	if ics {
+		sc.Ics = []IcSpec{{AddHeader: true}, {Shape: []string{"", "func", "struct"}[r.Intn(3)], PanicOn: []int64{1 + int64(r.Intn(int(id)))}}, {AddHeader: r.Intn(2) == 0}}
 	}
 	return sc
 }
